@@ -285,6 +285,9 @@ def InlineBuf(obj:Logic):
     return "assign {} = {};\n".format(getParentWireName(obj, obj.r), getParentWireName(obj, obj.a))
 
 def InlineSignExtend(obj:Logic):
+    if (obj.r.getWidth() < obj.a.getWidth()):
+        # narrower result: the value is only truncated (a replication count cannot be negative)
+        return "assign {} = {};\n".format(getParentWireName(obj, obj.r), getParentWireName(obj, obj.a))
     return "assign {} = {{ {{ {} {{ {}[{}] }} }}, {} }};\n".format(getParentWireName(obj, obj.r), obj.r.getWidth() - obj.a.getWidth(),  getParentWireName(obj, obj.a), obj.a.getWidth()-1, getParentWireName(obj, obj.a))
 
 def InlineZeroExtend(obj:Logic):
